@@ -144,6 +144,10 @@ class SidecarValidator:
         found_column_references = {}
         for column_data in sidecar:
             column_name = column_data.column_name
+            if not column_data.column_type and isinstance(column_data.source_dict, dict) \
+                    and isinstance(column_data.source_dict.get("HED"), str):
+                # A HED string without a placeholder has no column type yet, but its references are used later
+                column_data = column_data._get_unvalidated_data()
             hed_strings = column_data.get_hed_strings()
             error_handler.push_error_context(ErrorContext.SIDECAR_COLUMN_NAME, column_name)
             matches = []
